@@ -77,6 +77,22 @@ def run(ck):
         if m['wf'] and m['vm'] and all(s is not None for s in m['vm']):
             if [s['out'] for s in m['vm']] != ref:
                 disag.append(("Lmmm machine and reference semantics differ on a wf program (C02_preservation would be false)", idx))
+    # ---------------- outside the Coq fragment: wide self (tuple / record / sum-typed feedback value) + cells in `if` arms; the
+    # expected stream comes from a python evaluator of the property text (lib/wideself.py), not from a theorem -------------------
+    wviol = []
+    for case, r in wide_stream(ck, iexe, 300 if quick else 3000, 12 if quick else 32, "C02"):
+        if 'crash' in r:
+            wviol.append(("harness process died while running an accepted program with a wide self", case, {"rc": str(r['crash'])})); continue
+        if r.get("typecheck") != "ok":
+            bump("wide_stream_rejected"); continue
+        why = wide_output_mismatch(case, r)
+        if why:
+            wviol.append((why + " (program with a tuple/record/sum-typed self, outside the Coq fragment)", case, {}))
+        else:
+            bump("wide_stream_matches_reference"); distinct.add(case["src"])
+    for what, case, det in wviol[:3]:
+        ck.violation(what, {"source": case["src"], "reference_outputs": case["expect"], **det,
+                            "how": "echo '{\"src\":<source>,\"n\":N}' | .cache/target/lang/debug/lmmm_run"})
     ck.coverage["evaluations"] = len(cases)
     ck.coverage["distinct_nontrivial"] = len(distinct)
     ck.coverage["samples_per_program"] = n_samples
@@ -91,6 +107,7 @@ def run(ck):
         ck.violation(what, {"source": pp_prog(p), "n_samples": len(rows), "inputs": rows if p['inputs'] else None,
                             "reference_outputs": mres[idx].get('ref'), **det,
                             "how": "echo '{\"src\":<source>,\"n\":N,\"inputs\":..}' | .cache/target/lang/debug/lmmm_run"})
+    viol = viol + wviol
     if disag and not viol:
         what, idx = disag[0]
         ck.broken.append(what)
